@@ -94,6 +94,20 @@ prop('C17',
   "Not decided: name/hw-address lookup after a rename (stale chained entry), payload contents, interleavings of replies beyond the enumerated cases.",
   "custom AST/CFG checker: effect intervals, path-sensitive reachability under constant environments, ownership, must-precede, definiteness", "DESIGN.md 5/C17")
 
+prop('C09',
+  "Static analysis of /repo's current source: decides structural necessary conditions - ConnectionUp is raised only in _finish_connecting, "
+  "which is called only from the handshake's barrier-reply and barrier-unsupported-error handlers under `self._barrier` and the barrier's "
+  "xid; the barrier is created only after features/dpid were recorded; handler swap, connect_time and the registry entry dominate the "
+  "ConnectionUp raise; early port-status messages are buffered only while buffering is on and replayed after both ConnectionUp raises, in "
+  "list order, through the connected-state handler; ConnectionDown is raised only in disconnect under the disconnection_raised "
+  "test-and-set, and for each (disconnected, raised, defer_event) state path-sensitive reachability decides whether it must / must not be "
+  "raised; close() always disconnects; every removal from the task's select list is preceded by close(); the registry is written only by "
+  "_connect/_disconnect, delete is unreachable when the entry holds a different connection, connections enter it only post-handshake; "
+  "every event raised on a connection/nexus is declared there and every handle_<NAME> names a switch-originated type. Decides these "
+  "conditions, not arbitrary interleavings of replies or socket-level loss points.",
+  "Not decided: interleavings of handshake replies with asynchronous messages as executions; socket-level loss points; timing of the deferred sender.",
+  "custom AST/CFG checker: who-may-raise / who-may-write ownership, dominance, path-sensitive reachability under constant environments (once-only state table), registry exhaustiveness", "DESIGN.md 5/C09")
+
 NOT_APPLICABLE = {
   'C16': "Address types: the statement is about numeric/textual agreement over the whole address domain (byte order, mask arithmetic, CIDR parsing, zero-run compression, round trips, rejection of malformed text) - results of computations on runtime values; no shape-level rule is a necessary and telling condition for it (DESIGN.md section 7).",
 }
